@@ -446,13 +446,16 @@ def state_cases(quick):
         out.append(dd)
     # elastic strain energy per phase (it enters the driving force for nucleation and the Gibbs-Thomson term of every size class alike)
     strain = {'P1': {'eig': [0.012, 0.012, 0.012], 'calc': False}, 'P2': {'eig': [0.008, 0.008, 0.004], 'calc': False}}
-    # (ternary runs evaluate the Eshelby energy for every size class at every step, 30-350 s per run: thorough tier only)
+    # (ternary runs evaluate the Eshelby energy for every size class at every step - minutes to more than half an hour per run at the
+    #  full horizon: thorough tier only, one phase, isothermal, short horizon)
     for system in (['bin'] if quick else ['bin', 'tern']):
-        for nph in [1, 2]:
+        for nph in ([1, 2] if system == 'bin' else [1]):
             for it in ('euler', 'rk4'):
-                for temp in (['iso'] if quick else ['iso', 'hrh']):
+                for temp in (['iso'] if (quick or system == 'tern') else ['iso', 'hrh']):
                     dd = dict(base)
                     dd.update({'system': system, 'nphases': nph, 'it': it, 'temp': temp, 'strain': strain, 'site': 'bulk'})
+                    if system == 'tern':
+                        dd['tf'] = 6.0
                     out.append(dd)
     return out
 
